@@ -43,6 +43,10 @@ KINDS_E = ("p", "q", "d1", "k", "e")
 KINDS_LBL = ("p", "dM", "uM", "dU", "pS", "dP", "d1")
 TEXT_HI = b"\xe9b\xff\xc9d\xfe"
 MODES = ("r0", "rp", "rd", "rk")
+#  rs every decoded value is matched again, whole, by a decoder reporting type "d" (the type of kind d1): under a d1 result that hit restates
+#     its parent and is dropped, under a result of another type with the same value (kind dZ) it is a genuine child
+ALL_MODES = MODES + ("rs",)
+KINDS_RS = ("d1", "dZ", "p", "q")
 #  r0 nothing is found in decoded values           rp one plain hit on the first byte of any decoded value
 #  rd every decoded value decodes again (value + b"!"), so only the depth budget stops the recursion
 #  rk a hit with a supplied child on every decoded value
@@ -94,6 +98,8 @@ def spec(T: bytes, a: int, b: int, kind: str):
         return ("string", cov, "", a, b, [])
     if kind == "dC":
         return ("shell.cmd", cov[1:] + b"c", "unescape.shell.carets", a, b, [])
+    if kind == "dZ":
+        return ("z", b"Z", "dZ", a, b, [])
     if kind == "dP":
         return ("p", T[0:b - a], "", a, b, [])
     if kind == "e":
@@ -113,6 +119,8 @@ def mode_specs(mode: str, T: bytes, value: bytes):
         return [("d", value + b"!", "rd", 0, len(value), [])]
     if mode == "rk":
         return [("k", value, "", 0, len(value), [("kc", b"r", "", 0, 1, [])])]
+    if mode == "rs":
+        return [("d", value, "", 0, len(value), [])]
     raise ValueError(mode)
 
 
